@@ -774,9 +774,13 @@ def run_case(spec, ctx):
                     continue
                 w1, w0 = ev.want(fp), ev0.want(fp)
                 if np.shape(d1) != np.shape(d0):          # verbose: per-mode contributions vs their sum
+                    # (scale = size of the contributions, the sum may cancel)
+                    mag = max(float(np.sum(np.abs(a))) for a in (d1, d0, w1, w0))
                     d1, d0, w1, w0 = (np.sum(a) for a in (d1, d0, w1, w0))
+                else:
+                    mag = 1e-300
                 sc = np.maximum.reduce([np.abs(d1), np.abs(d0), np.abs(w1), np.abs(w0),
-                                        np.full(np.shape(d1), 1e-300)])
+                                        np.full(np.shape(d1), max(mag, 1e-300))])
                 moved = float(np.max(np.abs(w1 - w0) / sc))
                 e = ctx.err(d1 - d0, w1 - w0, sc)
                 reacts = not (moved > 1e-9 and float(np.max(np.abs(d1 - d0) / sc)) == 0.0)
@@ -794,20 +798,35 @@ def run_case(spec, ctx):
         # ---- documented default temperature (energies of modes / StatMech / reaction E_state)
         # (a getter that already failed with an explicit T is not asked again: same defect)
         if g['energy'] and tk == 'scalar' and units and all_ok and default_T_ok(subj, g):
-            evd = Eval(subj, g, None, opts, ctx)
-            if evd.twin_exc is None and evd.finite:
-                u = units[-1]
-                fam, fp, fs = factor(u, subj.comp)
-                m = dict(base_mech, T_kind='default', unit_family=fam, option='+'.join(present) or 'none',
-                         clause='U1')
-                st, d = evd.dim(u)
+            u = units[-1]
+            st, detail = default_T_check(subj, g, opts, u, ctx)
+            if st != 'skip':
                 ctx.cls('T:default')
-                if st == 'exc':
-                    ctx.fail('U1', dict(m, exc=type(d).__name__), message=str(d)[:300], unit=call_unit(g, u),
-                             options=opts)
+                fam = unit_info(u)[0]
+                if st == 'ok':
+                    ctx.held('U1')
                 else:
-                    ctx.close('U1', d, evd.want(fp), TOL1, m, scale=np.maximum(np.abs(evd.want(fp)), 1e-300),
-                              unit=call_unit(g, u), options=opts)
+                    # is the mismatch there without any option?
+                    label = 'none' if (not present or default_T_check(subj, g, {}, u, ctx)[0] == 'fail') \
+                        else '+'.join(present)
+                    ctx.fail('U1', dict(base_mech, T_kind='default', unit_family=fam, option=label, clause='U1',
+                                        **detail.pop('mech', {})), unit=call_unit(g, u), options=opts, **detail)
+
+
+def default_T_check(subj, g, opts, u, ctx):
+    """get_X(units) without T against the twin at the documented 298.15 K -> ('ok'|'fail'|'skip', detail)"""
+    evd = Eval(subj, g, None, opts, ctx)
+    if evd.twin_exc is not None or not evd.finite:
+        return 'skip', {}
+    fam, fp, fs = factor(u, subj.comp)
+    st, d = evd.dim(u)
+    if st == 'exc':
+        return 'fail', {'mech': {'exc': type(d).__name__}, 'message': str(d)[:300]}
+    want = evd.want(fp)
+    e = rel_err(ctx, d, want)
+    if e <= TOL1:
+        return 'ok', {}
+    return 'fail', {'err': e, 'tol': TOL1, 'got': d, 'want': want}
 
 
 def default_T_ok(subj, g):
